@@ -17,6 +17,7 @@ import (
 	"io"
 	"math/rand"
 	"strings"
+	"sync"
 	"testing"
 
 	"github.com/bokysan/socketace/v2/internal/streams/dns/commands"
@@ -674,6 +675,99 @@ func c09Payload(gen string, n int, key uint64, rng *rand.Rand) []byte {
 	return b
 }
 
+// c09Concurrent: the server decodes the requests of several users at the same time (one handler goroutine per datagram).
+// k goroutines each push their own numbered packet requests through the whole path (client-side encoding with the shared
+// codec objects, Pack, Unpack, ComposeRequest, DecodeDnsRequest); every one must get back exactly what it sent.
+func c09Concurrent(rec *vcommon.Rec, codec enc.Encoder, k, rounds int) {
+	domain := "t.example.org"
+	desc := map[string]interface{}{"family": "concurrent-users", "codec": codec.Name(), "goroutines": k, "requests_each": rounds}
+	rec.Mark(desc)
+	qt := dnsmessage.Type(c09QTypes[0])
+	cli := commands.Serializer{Domain: domain, Upstream: util.UpstreamConfig{Encoder: codec, QueryType: &qt}}
+	srv := commands.Serializer{Domain: domain, Upstream: util.UpstreamConfig{Encoder: codec, QueryType: &qt}}
+	// sequential control first: inputs that do not round-trip alone are not judged here (they are the other families' business)
+	one := func(g, i int) (string, bool) {
+		n := 1 + (i*7+g*13)%60
+		payload := make([]byte, n)
+		vcommon.FillKeyed(uint64(g)*1000003+7, int64(i)*64, payload)
+		req := &commands.PacketRequest{UserId: uint16(g*37 + i%36), LastAckedSeqNo: uint16(i * 3), Packet: &util.Packet{SeqNo: uint16(i + g*1000), Data: payload}}
+		msg, err := cli.EncodeDnsRequestWithParams(req, qt, codec)
+		if err != nil {
+			return "", false
+		}
+		wire, err := msg.Pack()
+		if err != nil {
+			return "", false
+		}
+		got := new(mdns.Msg)
+		if err := got.Unpack(wire); err != nil {
+			return "", false
+		}
+		back, err := srv.DecodeDnsRequest(commands.ComposeRequest(got, domain))
+		if err != nil {
+			return "decode-error: " + err.Error(), true
+		}
+		pr, ok := back.(*commands.PacketRequest)
+		switch {
+		case !ok:
+			return fmt.Sprintf("decoded as %T", back), true
+		case pr.UserId != req.UserId:
+			return fmt.Sprintf("user id %d instead of %d", pr.UserId, req.UserId), true
+		case pr.LastAckedSeqNo != req.LastAckedSeqNo:
+			return fmt.Sprintf("ack %d instead of %d", pr.LastAckedSeqNo, req.LastAckedSeqNo), true
+		case pr.Packet == nil || pr.Packet.SeqNo != req.Packet.SeqNo:
+			return "sequence number differs", true
+		case !bytes.Equal(pr.Packet.Data, payload):
+			return fmt.Sprintf("payload differs (%d bytes sent)", n), true
+		}
+		return "", true
+	}
+	for g := 0; g < k; g++ {
+		for i := 0; i < 64; i++ {
+			if prob, ran := one(g, i); !ran || prob != "" {
+				rec.Note("c09 concurrent: sequential control does not round-trip, family skipped for this codec", map[string]interface{}{"codec": codec.Name(), "problem": prob})
+				return
+			}
+		}
+	}
+	var wg sync.WaitGroup
+	var mu sync.Mutex
+	var first string
+	var firstG, firstI, bad, done int
+	for g := 0; g < k; g++ {
+		wg.Add(1)
+		go func(g int) {
+			defer wg.Done()
+			for i := 0; i < rounds; i++ {
+				var prob string
+				var ran bool
+				if p, site, val := vcommon.Guard(func() { prob, ran = one(g, i) }); p {
+					prob, ran = "panic@"+site+": "+val, true
+				}
+				mu.Lock()
+				if ran {
+					done++
+				}
+				if prob != "" {
+					bad++
+					if first == "" {
+						first, firstG, firstI = prob, g, i
+					}
+				}
+				mu.Unlock()
+			}
+		}(g)
+	}
+	wg.Wait()
+	rec.Case(fmt.Sprintf("concurrent/%s/%d/%d", codec.Name(), k, rounds), done > 0)
+	rec.Stat("requests_compared", int64(done))
+	rec.Stat("concurrent_requests_compared:"+codec.Name(), int64(done))
+	if bad > 0 {
+		desc["first_failure"] = map[string]interface{}{"goroutine": firstG, "request": firstI, "problem": first}
+		rec.Violation("concurrent-users:"+codec.Name()+":request-not-recovered-although-it-is-alone", desc, map[string]interface{}{"failed": bad, "of": done, "first": first})
+	}
+}
+
 func TestVerifC09(t *testing.T) {
 	logrus.SetLevel(logrus.PanicLevel)
 	logrus.SetOutput(io.Discard)
@@ -682,6 +776,16 @@ func TestVerifC09(t *testing.T) {
 	r := &c09Runner{rec: rec, t: t, fix: map[string]*c09Fix{}, lsrv: map[string]*ServerDnsListener{}}
 
 	if rec.Replay != nil {
+		var fam struct {
+			Family string `json:"family"`
+			Codec  string `json:"codec"`
+			K      int    `json:"goroutines"`
+			Rounds int    `json:"requests_each"`
+		}
+		if json.Unmarshal(rec.Replay, &fam) == nil && fam.Family == "concurrent-users" {
+			c09Concurrent(rec, c09CodecByName(fam.Codec), fam.K, fam.Rounds)
+			return
+		}
 		var c c09Case
 		if err := json.Unmarshal(rec.Replay, &c); err != nil {
 			t.Fatal(err)
@@ -725,11 +829,19 @@ func TestVerifC09(t *testing.T) {
 		}
 	}
 
+	for _, e := range c09UpstreamCodecs {
+		items = append(items, c09Item{"concurrent-users", e, 0, 0})
+	}
+
 	for idx, it := range items {
 		if !rec.Mine(idx) {
 			continue
 		}
 		e := it.codec
+		if it.fam == "concurrent-users" {
+			c09Concurrent(rec, e, 8, rec.Pick(4000, 40000))
+			continue
+		}
 		tag := fmt.Sprintf("c09/%s/%s/%d/%d", it.fam, e.Name(), it.domain, it.part)
 		rng := vcommon.NewRand(rec.Seed(), tag)
 		rec.Mark(map[string]interface{}{"family": it.fam, "codec": e.Name(), "domain_index": it.domain, "part": it.part})
